@@ -168,6 +168,7 @@ func initModels() {
 		et := st.Underlying().(*types.Slice).Elem()
 		k := canon(x, a[1].S)
 		old, dom := e.mapLoad(p, nil, mt, a[0].S, k)
+		e.assumeRange(p, old)
 		oldLen := ite(dom, old.Len, "0")
 		arr := e.alloc(p, "hdrval")
 		// copy of the old values followed by the new one
@@ -193,6 +194,7 @@ func initModels() {
 		mt := hdrType(cc)
 		et := mt.Underlying().(*types.Map).Elem().Underlying().(*types.Slice).Elem()
 		v, dom := e.mapLoad(p, nil, mt, a[0].S, canon(x, a[1].S))
+		e.assumeRange(p, v) // stored header values are allocated slices
 		first := e.loadElem(p, nil, v.S, v.Off, et)
 		empty := zeroOfSort(e.strSort())
 		return []Val{scalar(cc.Signature().Results().At(0).Type(), ite(and(not(eq(a[0].S, "0")), dom, "(> "+v.Len+" 0)"), first.S, empty))}, true
@@ -213,6 +215,25 @@ func initModels() {
 		e.storeElem(p, arr, "0", strT, scalar(strT, ite(has, "(str.substr "+s+" 0 "+idx+")", s)))
 		e.storeElem(p, arr, "1", strT, scalar(strT, "(str.substr "+s+" (+ "+idx+" (str.len "+sep+")) (str.len "+s+"))"))
 		return []Val{{K: KSlice, T: t, S: arr, Off: "0", Len: ite(has, "2", "1")}}, true
+	}}
+	models["strings.Split"] = &model{silent: true, fn: func(x *Exec, p *Path, site ssa.Instruction, cc *ssa.CallCommon, a []Val) ([]Val, bool) {
+		e := x.e
+		t := cc.Signature().Results().At(0).Type()
+		if !e.stringMode {
+			return []Val{e.freshVal(p, t, "split")}, true
+		}
+		e.note("strings.Split(s, sep): at least one element; the first is s up to the first occurrence of a non-empty sep (assumed)")
+		s, sep := a[0].S, a[1].S
+		has := "(str.contains " + s + " " + sep + ")"
+		idx := "(str.indexof " + s + " " + sep + " 0)"
+		arr := e.alloc(p, "split")
+		strT := types.Typ[types.String]
+		n := e.fresh("splitlen", "Int")
+		p.assume("(>= " + n + " 1)")
+		p.assume("(= (= " + n + " 1) (not " + has + "))")
+		x.oblige(p, "model", "split_separator_nonempty", not(eq(sep, "\"\"")), nil, "strings.Split model needs a non-empty separator")
+		e.storeElem(p, arr, "0", strT, scalar(strT, ite(has, "(str.substr "+s+" 0 "+idx+")", s)))
+		return []Val{{K: KSlice, T: t, S: arr, Off: "0", Len: n}}, true
 	}}
 	models["strings.HasPrefix"] = pure(func(x *Exec, p *Path, cc *ssa.CallCommon, a []Val) []Val {
 		if !x.e.stringMode {
